@@ -14,6 +14,8 @@
     flag <01>                          -> ok          BlockCommitInProgress
     resort                             -> ok          buildSortedList
     reload                             -> ok          MempoolSave + MempoolLoad
+    loadfail <k> <j|->                 -> ok          MempoolLoad returning false (file cut after k pool records; j = rejected
+                                                      records read, `-` = the cut is inside the pool section); also InitMempool
     ringorder <n> {<bidx>}*            -> ok | bad    adopt the observed order of the reject ring (must be a permutation)
     setorder <n> {<bidx>}*             -> ok | bad    adopt the observed sorted list (must be a parents-first permutation)
     rbf <npk> {<fee> <weight> <k> {<bidx>}*}*  -> <bidx>* | bad-pkg <i>   GetSortedMempoolRBF's listing for the observed FeePackages
@@ -22,6 +24,7 @@
 -/
 import GocoinV.Model.Mempool
 import GocoinV.Model.MempoolResync
+import GocoinV.Model.MempoolLoad
 import GocoinV.Base.Proto
 open GocoinV GocoinV.Mempool
 
@@ -166,6 +169,10 @@ def step (o : OSt) (toks : List String) : OSt × String :=
   | ["flag", y] => ({ o with s := Mempool.step K s (.commitFlag (y == "1")) }, "ok")
   | ["resort"] => ({ o with s := Mempool.step K s .resort }, "ok")
   | ["reload"] => ({ o with s := Mempool.step K s .reload }, "ok")
+  | ["loadfail", k, j] =>
+    match k.toNat?, (if j == "-" then some none else j.toNat?.map some) with
+    | some k, some j => ({ o with s := loadRefused K s k j }, "ok")
+    | _, _ => bad
   | "ringorder" :: n :: rest =>
     match n.toNat?.bind (fun n => takeN parseKey n rest) with
     | some (ks, []) =>
